@@ -53,7 +53,12 @@ func body(w *hx.W) {
 			continue
 		}
 		cfg := memsim.Cfg{Seed: seed, Sessions: 1 + i%3, Boxes: 2 + i%3, Steps: 50, Rev2: i%2 == 0, NoopBias: 120, Profile: "model", InitMsgs: 6 + i%7, WithJunk: i%5 == 0, WithAdmin: true}
-		done := w.Begin(fmt.Sprintf("history-%d", seed), fmt.Sprintf("history seed=%d sessions=%d rev2=%v", seed, cfg.Sessions, cfg.Rev2), 120*time.Second)
+		if i%25 == 24 {
+			// long histories on the same connections (hundreds of commands, dozens of refusals)
+			cfg.Steps = 500
+			w.Metric("long_histories", 1)
+		}
+		done := w.Begin(fmt.Sprintf("history-%d", seed), fmt.Sprintf("history seed=%d sessions=%d rev2=%v steps=%d", seed, cfg.Sessions, cfg.Rev2, cfg.Steps), 600*time.Second)
 		memsim.Run(cfg, r)
 		done()
 		w.Case(uint64(seed))
